@@ -17,7 +17,7 @@
     code_calls_extracted identity_transparent_msg_sub choose_extract_succeeds
     sub_attrs_not_extracted wide_of_plain identity_transparent_msg_reorder
     translate_format_id_brackets msg_identity_brackets msg_identity_elem_brackets brackets_of_clean
-    placeholder_text_straddles
+    placeholder_text_straddles msg_element_first_child_mismatch
 -/
 import Genshi.Lemmas.I18nTree
 import Genshi.Lemmas.I18nStarts
@@ -282,6 +282,15 @@ example :
       [.sub [.msg [['n']]] [.text ['H','i',' '], .start ⟨[], ['b']⟩ [(⟨[], ['t','i','t','l','e']⟩, .str ['T'])],
          .text ['x'], .end_ ⟨[], ['b']⟩, .text [' '], .expr 0 []]] =
       [['H','i',' ','[','1',':','x',']',' ','%','(','n',')','s']] := by
+  refine ⟨by decide +kernel, by decide +kernel⟩
+
+/-- C19-msg-element-first-child: `<i18n:msg><b>x</b> y</i18n:msg>` — the element form takes a
+    leading element for its own start tag: rendering looks up `x y`, extraction reports `x`; the
+    hypothesis of `GoodMsg` on the first event of the element form cannot be dropped. -/
+theorem msg_element_first_child_mismatch :
+    msgId [] [.start ⟨[], ['b']⟩ [], .text ['x'], .end_ ⟨[], ['b']⟩, .text [' ','y']] = .ok (some ['x',' ','y']) ∧
+    msgExtract Cfg.default [] true [] [] [.start ⟨[], ['b']⟩ [], .text ['x'], .end_ ⟨[], ['b']⟩, .text [' ','y']] =
+      .ok [⟨none, .one (some ['x']), []⟩] := by
   refine ⟨by decide +kernel, by decide +kernel⟩
 
 /-- **lookups_subset_extract, gettext calls made by template code.**  For every stream as in
